@@ -25,3 +25,108 @@ package accum
 //@   ensures forall j int :: 0 <= j && j < cidlen(obj.Cid) ==> result0[uvl(uint64(secLen(obj)))+j] == cidbyte(obj.Cid, j)
 //@   ensures forall j int :: 0 <= j && j < len(obj.ObjectData) ==> result0[uvl(uint64(secLen(obj)))+cidlen(obj.Cid)+j] == obj.ObjectData[j]
 //@   ensures result0[0] == ite(secLen(obj) < 128, byte(secLen(obj)), byte(secLen(obj) % 128 + 128))
+
+// ---------------------------------------------------------------------------------------------------------------------
+// C15: block-by-block traversal (block.go).
+//
+// Position model: consumed(oa.reader.br) counts the bytes taken from the reader since the end of the CAR header (Run
+// requires it to be 0: the reader comes from carreader.New and nothing else has been read); the file position is then
+// *oa.reader.headerSize + consumed(oa.reader.br), with headerSize the length of the re-encoded header (trusted to equal the
+// length of the header that was read: canonical CBOR). fbyte(oa.reader.br, k) is the k-th byte after the header.
+//
+// Channel sends are not modelled by vcgo (`ch <- v` is a no-op for the engine), so everything the property says about a
+// delivered group is stated as the PRECONDITION of sendToFlusher and is proved at each of the three send sites of Run
+// (obligations Run/pre((*ObjectAccumulator).sendToFlusher)#k[...]). What a send site proves:
+//   grpKinds : no child has the flush kind or an ignored kind (children are exactly filtered);
+//   grpOrder : children are in file order and do not overlap; they all lie after the header;
+//   grpSits  : every child's ObjectData is the tail of the file range [Offset, Offset+SectionLength) (true offset/length);
+//   head     : head != nil ==> head has the flush kind, lies after all children, ends at the current reader position and
+//              its ObjectData is the tail of its range; head == nil only at EOF (trailing group).
+// Not expressible without a ghost history of the sections read: completeness of a group (no non-ignored object between
+// two children was dropped) and "exactly one send per flush-kind object" (structural: each send is followed by a break).
+
+//@ spec func hdrOk(oa *ObjectAccumulator) bool = oa.reader != nil && oa.reader.headerSize != nil && 0 <= *oa.reader.headerSize && *oa.reader.headerSize < 4611686018427387904
+//@ spec func posOk(oa *ObjectAccumulator) bool = hdrOk(oa) && oa.reader.br != nil && 0 <= consumed(oa.reader.br) && consumed(oa.reader.br) < 4611686018427387904
+//@ spec func pos0(oa *ObjectAccumulator) int = int(*oa.reader.headerSize) + consumed(oa.reader.br)
+//@ spec func okind(o ObjectWithMetadata) iplddecoders.Kind = iplddecoders.Kind(o.ObjectData[1])
+//@ spec func oend(o ObjectWithMetadata) int = int(o.Offset) + int(o.SectionLength)
+// sits: o's bytes are the tail of the file range [o.Offset, o.Offset+o.SectionLength), which lies after the header
+//@ spec func sitsN(oa *ObjectAccumulator, o ObjectWithMetadata) bool = *oa.reader.headerSize <= o.Offset && o.Offset < 9223372036854775808 && o.SectionLength < 4611686018427387904 && len(o.ObjectData) + 1 <= int(o.SectionLength)
+//@ spec func sitsB(oa *ObjectAccumulator, o ObjectWithMetadata, k int) bool = o.ObjectData[k] == fbyte(oa.reader.br, oend(o) - int(*oa.reader.headerSize) - len(o.ObjectData) + k)
+//@ spec func sits(oa *ObjectAccumulator, o ObjectWithMetadata) bool = sitsN(oa, o) && (forall k int :: 0 <= k && k < len(o.ObjectData) ==> sitsB(oa, o, k))
+
+//@ func (*ObjectAccumulator) Run
+//@   mode int
+//@   requires ctx != nil && oa.callback != nil && oa.reader != nil && oa.reader.br != nil
+//@   requires consumed(oa.reader.br) == 0
+//@   requires 0 <= fsize(oa.reader.br) && fsize(oa.reader.br) < 4611686018427387904
+//@   requires oa.reader.headerSize != nil ==> *oa.reader.headerSize < 4611686018427387904
+//@   modifies oa.reader, consumed(oa.reader.br), allof(*flushBuffer)
+//@   # --- outer loop: one iteration per delivered group; the new group starts empty
+//@   loop 0 invariant oa.reader == old(oa.reader) && oa.reader.br == old(oa.reader.br) && oa.reader.headerSize != nil
+//@   loop 0 invariant 0 <= consumed(oa.reader.br) && consumed(oa.reader.br) <= fsize(oa.reader.br)
+//@   loop 0 invariant hdrOk(oa) ==> int(totalOffset) == pos0(oa)
+//@   # --- inner loop: one iteration per section read
+//@   loop 1 invariant oa.reader == old(oa.reader) && oa.reader.br == old(oa.reader.br) && oa.reader.headerSize != nil
+//@   loop 1 invariant 0 <= consumed(oa.reader.br) && consumed(oa.reader.br) <= fsize(oa.reader.br)
+//@   loop 1 invariant hdrOk(oa) ==> int(totalOffset) == pos0(oa)
+//@   loop 1 invariant fresh(children)
+//@   # Wanted, needs the builtin freshin(N, x) (engine patch prototyped in /tmp/vcgo-c14/ct-c14-engine.patch, not in bin/vcgo yet):
+//@   #   loop 1 invariant freshin(0, children)
+//@   # = the group under construction lives in storage allocated in THIS outer iteration, i.e. after every earlier send,
+//@   # so it cannot alias a group already handed to the consumer.
+//@   loop 1 invariant hdrOk(oa) ==> forall i int :: 0 <= i && i < len(children) ==> oend(children[i]) <= int(totalOffset)
+//@   loop 1 invariant hdrOk(oa) ==> forall i, j int :: 0 <= i && i < j && j < len(children) ==> oend(children[i]) <= int(children[j].Offset)
+//@   loop 1 invariant hdrOk(oa) ==> forall i int :: 0 <= i && i < len(children) ==> sits(oa, children[i])
+//@   loop 1 invariant forall i int :: 0 <= i && i < len(children) ==> okind(children[i]) != oa.flushOnKind && !(len(oa.ignoreKinds) > 0 && oa.ignoreKinds.Has(okind(children[i])))
+
+// Body is sync.Pool.Get plus a type assertion: the pool's New and putFlushBuffer are the only producers, both give
+// *flushBuffer (pool invariant, trusted).
+//@ func getFlushBuffer
+//@   mode int
+//@   trusted
+//@   ensures result != nil
+
+//@ func (*flushBuffer) Reset
+//@   mode int
+//@   modifies fb
+//@   ensures fb.parent == nil && len(fb.children) == 0
+
+//@ func putFlushBuffer
+//@   mode int
+//@   requires fb != nil
+//@   modifies fb
+//@   ensures fb.parent == nil && len(fb.children) == 0
+
+// sendToFlusher: the PRECONDITION is the statement about a delivered group (see above); it is proved at the three send
+// sites of Run. head == nil is the trailing group.
+//@ func (*ObjectAccumulator) sendToFlusher
+//@   mode int
+//@   requires forall i int :: 0 <= i && i < len(other) ==> okind(other[i]) != oa.flushOnKind && !(len(oa.ignoreKinds) > 0 && oa.ignoreKinds.Has(okind(other[i])))
+//@   requires posOk(oa) ==> forall i, j int :: 0 <= i && i < j && j < len(other) ==> oend(other[i]) <= int(other[j].Offset)
+//@   requires posOk(oa) ==> forall i int :: 0 <= i && i < len(other) ==> sitsN(oa, other[i]) && oend(other[i]) <= pos0(oa)
+//@   requires posOk(oa) ==> forall i, k int :: 0 <= i && i < len(other) && 0 <= k && k < len(other[i].ObjectData) ==> sitsB(oa, other[i], k)
+//@   requires head != nil ==> okind(*head) == oa.flushOnKind
+//@   requires posOk(oa) && head != nil ==> oend(*head) == pos0(oa)
+//@   requires posOk(oa) && head != nil ==> sits(oa, *head)
+//@   requires posOk(oa) && head != nil ==> forall i int :: 0 <= i && i < len(other) ==> oend(other[i]) <= int(head.Offset)
+//@   modifies allof(*flushBuffer)
+//@   # what is queued is the caller's group itself (same storage, no copy into a pooled slice)
+//@   ensures fb != nil && fb.parent == head && ref(fb.children) == ref(other) && len(fb.children) == len(other)
+
+// The callback is an arbitrary client function; assumed not to write anything the accumulator reads (in particular not the
+// delivered objects), which is also what data-race freedom between the two goroutines needs.
+//@ func (*ObjectAccumulator) flush
+//@   mode int
+//@   requires oa.callback != nil
+//@   fncall oa.callback ensures true
+//@   ensures head == nil && len(other) == 0 ==> result == nil
+
+//@ func isStop
+//@   mode int
+
+// startFlusher (the consumer goroutine): writes only the WaitGroup inside oa and the pooled buffers it received.
+//@ func (*ObjectAccumulator) startFlusher
+//@   mode int
+//@   requires ctx != nil && oa.callback != nil
+//@   modifies allof(*flushBuffer)
